@@ -5,10 +5,10 @@ namespace Canopy.Smt
 open Trie
 
 /-- the repaired verifier has no crash and no hang outcome -/
-theorem verifyFixed_no_crash (H : Bytes → Bytes) (H4 : Bytes → Bytes → Bytes → Bytes → Bytes) (n : Nat) (uk v : Bytes) (m : Bool) (root : Bytes) (proof : List PNode) :
-    (∀ w, verifyFixed H H4 n uk v m root proof ≠ .crash w) ∧ verifyFixed H H4 n uk v m root proof ≠ .hang := by
+theorem verifyFixed_no_crash (strict : Bool) (H : Bytes → Bytes) (H4 : Bytes → Bytes → Bytes → Bytes → Bytes) (n : Nat) (uk v : Bytes) (m : Bool) (root : Bytes) (proof : List PNode) :
+    (∀ w, verifyFixed strict H H4 n uk v m root proof ≠ .crash w) ∧ verifyFixed strict H H4 n uk v m root proof ≠ .hang := by
   unfold verifyFixed
-  cases verifyFixedF H H4 n uk v m root proof <;> simp [FVerdict.toVerdict]
+  cases verifyFixedF strict H H4 n uk v m root proof <;> simp [FVerdict.toVerdict]
 
 /-! ### gcp facts -/
 
